@@ -1,6 +1,7 @@
 """C32 — the remote job protocol (scratch files + oneshot entry point + job names) reproduces local execution.
 
-Parts: "single" (one job through get_oneshot_command -> oneshot -> parse_job_result/parse_job_error),
+Parts: "files" (a File-producing job re-run through the protocol while its output files are lost or altered),
+"single" (one job through get_oneshot_command -> oneshot -> parse_job_result/parse_job_error),
 "array" (write_array_job_scratch_files + oneshot --array-job with the index environment variable),
 "names" (get_batch_job_name / get_hash_from_job_name round trip and job reuniting through
 AWSBatchExecutor.gather_inflight_jobs / _submit against a faked Batch job listing).
@@ -39,8 +40,14 @@ RULE = (
     "under several prefixes, array jobs with eval-hash files and shuffled in-flight child subsets, "
     "finished jobs, unrelated names, jobs that vanished from describe_jobs) is reunited through the real "
     "AWSBatchExecutor: every entry of the inflight map and every job placed in pending_batch_jobs by "
-    "_submit must point at an in-flight remote job created for that same eval hash. Non-trivial = array "
-    "size >= 2 run with an index other than 0, a raising call, or a prefix containing dashes."
+    "_submit must point at an in-flight remote job created for that same eval hash. files: a task that "
+    "writes 1-3 files and returns them as a bare File / list / dict / nested tuple-list-dict / plain paths "
+    "is run 2-4 times through the protocol in the same scratch directory (same eval hash: a retry or "
+    "resubmission); between attempts a produced file is deleted, rewritten with other content, or left "
+    "alone; after every attempt every File in the protocol's result must exist with the content a local "
+    "call writes and carry the hash of the file as it is now (what a local call returns). Non-trivial = array "
+    "size >= 2 run with an index other than 0, a raising call, a prefix containing dashes, or a files "
+    "case with a container shape and a deletion/rewrite before a later attempt."
 )
 ASSUMPTIONS = [
     "job hashes are hex strings (eval hashes / uuid4().hex) and job-name prefixes use the characters AWS "
@@ -106,6 +113,17 @@ single_cases = st.fixed_dictionaries({
     "stale_output": st.booleans(),
     "stale_error": st.booleans(),
 })
+
+
+@st.composite
+def file_cases(draw):
+    n = draw(st.integers(1, 3))
+    contents = draw(st.lists(st.sampled_from(["a", "bb", "part 0\n", "", "é"]), min_size=n, max_size=n))
+    attempts = draw(st.lists(st.sampled_from([None, ["delete", 0], ["delete", n - 1], ["rewrite", 0, "zz"],
+                                              ["rewrite", n - 1, "other"], ["delete-all"]]), min_size=1, max_size=3))
+    return {"part": "files", "shape": draw(st.sampled_from(["bare", "list", "dict", "nested", "paths"])),
+            "contents": contents, "attempts": [None] + attempts, "hash": draw(st.integers(0, 50)),
+            "scratch": draw(scratch_names), "trailing_slash": draw(st.booleans())}
 
 
 @st.composite
@@ -178,7 +196,7 @@ def _env():
 
         logging.getLogger("redun").disabled = True
         _state["RT"] = RT
-        _state["tasks"] = {"echo": RT.echo, "mix": RT.mix, "maybe": RT.maybe, "boom": RT.boom}
+        _state["tasks"] = {"echo": RT.echo, "mix": RT.mix, "maybe": RT.maybe, "boom": RT.boom, "mkfiles": RT.mkfiles}
     return _state
 
 
@@ -320,6 +338,82 @@ def single_oracle(ctx: Ctx, case: dict) -> None:
             if expected[0] == "ok" and ran[0] == "ok":
                 ctx.require(V.deep_typed_equal(ran[1], expected[1]), "single:return-differs",
                             f"oneshot returned {ran[1]!r}, local call returns {expected[1]!r}", case)
+    finally:
+        shutil.rmtree(root, ignore_errors=True)
+
+
+# ------------------------------------------------------------------------------- part "files"
+def _walk_files(v, out):
+    from redun.file import File
+
+    if isinstance(v, File):
+        out.append(v)
+    elif isinstance(v, dict):
+        for x in v.values():
+            _walk_files(x, out)
+    elif isinstance(v, (list, tuple, set, frozenset)):
+        for x in v:
+            _walk_files(x, out)
+    return out
+
+
+def files_oracle(ctx: Ctx, case: dict) -> None:
+    from redun.executors.command import get_oneshot_command
+    from redun.executors.scratch import parse_job_result
+    from redun.file import File
+    from redun.scheduler import Job
+
+    env = _env()
+    task = env["tasks"]["mkfiles"]
+    root, prefix = _prefix(ctx, case)
+    outdir = os.path.join(root, "produced")
+    try:
+        with _clean_process_state():
+            args, kwargs = (outdir, case["shape"], list(case["contents"])), {}
+            job = Job(task, task(*args))
+            job.eval_hash = hx(case["hash"])
+            job.args = (args, kwargs)
+            want = {os.path.join(outdir, f"f{i}.txt"): c for i, c in enumerate(case["contents"])}
+            nshape = {"bare": 1, "paths": 0}.get(case["shape"], len(case["contents"]))
+            for a, pert in enumerate(case["attempts"]):
+                if pert is not None:
+                    if pert[0] == "delete-all":
+                        shutil.rmtree(outdir, ignore_errors=True)
+                    else:
+                        p = os.path.join(outdir, f"f{pert[1]}.txt")
+                        if pert[0] == "delete":
+                            if os.path.exists(p):
+                                os.remove(p)
+                        else:
+                            os.makedirs(outdir, exist_ok=True)
+                            with open(p, "w") as f:
+                                f.write(pert[2])
+                            st_ = os.stat(p)
+                            os.utime(p, (st_.st_atime + 5 * (a + 1), st_.st_mtime + 5 * (a + 1)))
+                with ctx.no_raise("get_oneshot_command", case):
+                    argv = get_oneshot_command(prefix, job, task, args, kwargs)
+                ran = _run_oneshot(ctx, argv, case)
+                ctx.require(ran[0] == "ok", "files:raised", f"attempt {a}: oneshot raised {ran[1]!r}", case)
+                with ctx.no_raise("parse_job_result", case):
+                    result, exists = parse_job_result(prefix, job)
+                ctx.require(exists, "files:output-missing", f"attempt {a}: no output file", case)
+                got = _walk_files(result, [])
+                ctx.require(len(got) == nshape, "files:result-shape", f"attempt {a}: result {result!r} holds {len(got)} "
+                            f"Files, a local call returns {nshape}", case)
+                for f in got:
+                    w = want.get(f.path)
+                    ctx.require(w is not None, "files:result-shape", f"attempt {a}: unexpected File {f.path}", case)
+                    what = "lost" if pert and pert[0].startswith("delete") else "altered" if pert else "intact"
+                    ctx.require(os.path.exists(f.path), f"files:stale-result:{case['shape']}:missing-file",
+                                f"attempt {a} (after a produced file was {what}): the protocol's result refers to "
+                                f"{f.path}, which does not exist; a local call re-creates it", case)
+                    with open(f.path) as fh:
+                        content = fh.read()
+                    ctx.require(content == w, f"files:stale-result:{case['shape']}:wrong-content",
+                                f"attempt {a} (file {what}): {f.path} holds {content!r}, a local call writes {w!r}", case)
+                    ctx.require(f.hash == File(f.path).hash, f"files:stale-result:{case['shape']}:stale-hash",
+                                f"attempt {a} (file {what}): the result's File hash for {f.path} is not the hash of "
+                                f"the file as it is now", case)
     finally:
         shutil.rmtree(root, ignore_errors=True)
 
@@ -524,6 +618,9 @@ def _raises(call) -> bool:
 
 def labels(case: dict):
     part = case["part"]
+    if part == "files":
+        pert = any(p is not None for p in case["attempts"])
+        return [f"files:shape={case['shape']}", f"files:perturbed={pert}"], (pert and case["shape"] not in ("bare", "paths"))
     if part == "single":
         r = _raises(case["call"])
         labs = [f"single:task={case['call']['task']}", f"single:raises={r}", f"single:no_cache={case['no_cache']}"]
@@ -550,13 +647,14 @@ def run_case(ctx: Ctx, case: dict) -> None:
 
 
 def oracle(ctx: Ctx, case: dict) -> None:
-    {"single": single_oracle, "array": array_oracle, "names": names_oracle}[case["part"]](ctx, case)
+    {"single": single_oracle, "array": array_oracle, "names": names_oracle, "files": files_oracle}[case["part"]](ctx, case)
 
 
 def check(ctx: Ctx) -> None:
     ctx.given(single_cases, lambda c: run_case(ctx, c), ctx.n(600, 48000))
     ctx.given(array_cases(), lambda c: run_case(ctx, c), ctx.n(300, 24000))
     ctx.given(name_cases(), lambda c: run_case(ctx, c), ctx.n(300, 24000))
+    ctx.given(file_cases(), lambda c: run_case(ctx, c), ctx.n(150, 12000))
 
 
 def replay(ctx: Ctx, case: dict) -> None:
